@@ -70,11 +70,11 @@ func (c *betterCollector) Add(in interface{}) error {
 
 	var metrics extractedMetrics
 	if c.reference == nil {
-		c.reference = doc
 		metrics, err = extractMetricsFromDocument(doc)
 		if err != nil {
 			return errors.WithStack(err)
 		}
+		c.reference = doc
 		c.startedAt = metrics.ts
 		c.lastSample = &metrics
 		c.deltas = make([]int64, c.maxDeltas*len(c.lastSample.values))
